@@ -59,7 +59,7 @@ def cfgOf (l : Line) : C18.Cfg :=
 
 def reqOf (l : Line) : C18.Req :=
   { hint := if bool l "hint" then some (parseToken l) else none, clientID := str l "cid", plu := str l "plu", state := str l "state",
-    malformed := bool l "formerr", termRefused := bool l "termfail" }
+    malformed := bool l "formerr", termRefused := bool l "termfail", lookupRefused := bool l "lookupfail" }
 
 def orcOf (l : Line) : C18.Orc := { pathMatch := pathMatchOf l, urlParse := urlParseOf l }
 
